@@ -1,4 +1,6 @@
 """Adapter binding Split.tla to setigen.split_utils (C19)."""
+import contextlib
+import io
 import os
 import shutil
 
@@ -17,15 +19,24 @@ class Div(Exception):
         self.field, self.expected, self.observed = field, expected, observed
 
 
-def check_band(rec, g, workdir):
-    job, pieces = rec["job"], rec["pieces"]
-    N, F, s, T, asc = job["N"], job["F"], job["s"], job["T"], job["asc"]
-    tsel = job["Tsel"] or None
+def write_band(job, g, workdir):
+    """The input file of a group of band jobs (same N, T, orientation): written once, split several times."""
+    N, T, asc = job["N"], job["T"], job["asc"]
     fch1 = g["f0"] if asc else g["f0"] + (N - 1) * g["df"]
     fr = stg.Frame(fchans=N, tchans=T, df=g["df"], dt=1.0, fch1=fch1, ascending=asc, t_start=1.6e9)
     fr.data = np.array([[1000.0 * (i + 1) + j for j in range(N)] for i in range(T)])      # j = world channel (memory order)
     path = os.path.join(workdir, "band.fil")
     fr.save_fil(path)
+    return path
+
+
+def check_band(rec, g, workdir, path=None):
+    job, pieces = rec["job"], rec["pieces"]
+    N, F, s, T, asc = job["N"], job["F"], job["s"], job["T"], job["asc"]
+    tsel = job["Tsel"] or None
+    own = path is None
+    if own:
+        path = write_band(job, g, workdir)
 
     def file_cols(lo, hi):
         """World channels of file columns [lo, hi) (file order: descending files start at the top)."""
@@ -55,7 +66,8 @@ def check_band(rec, g, workdir):
                           {"first_channel_hz": f_first, "nchans": int(wf.container.selection_shape[2])})
         # the on-disk variant writes one loadable file per piece
         outdir = os.path.join(workdir, "pieces")
-        fns = split_utils.split_fil(path, outdir, F, tchans=tsel, f_shift=s)
+        with contextlib.redirect_stdout(io.StringIO()):
+            fns = split_utils.split_fil(path, outdir, F, tchans=tsel, f_shift=s)
         if len(fns) != len(pieces):
             raise Div("split_fil.count", len(pieces), len(fns))
         for k, (fn, p) in enumerate(zip(fns, pieces)):
@@ -67,16 +79,40 @@ def check_band(rec, g, workdir):
                 raise Div("split_fil.piece", {"piece": k, "lowest_world_channel": cols[0], "shape": list(want.shape)},
                           {"lowest_world_channel": lo, "shape": list(sub.data.shape)})
     finally:
-        if os.path.exists(path):
+        if own and os.path.exists(path):
             os.remove(path)
         # the output directory is deliberately re-used by later jobs (a second split into the same directory must
         # overwrite earlier pieces of the same name); it is removed with the check's scratch directory
 
 
-def check_array(rec):
+LAYOUTS = ("contiguous", "column_view", "row_strided", "fortran", "transposed_view", "float32")
+
+
+def laid_out(H, W, layout):
+    """The same H x W values 0..H*W-1 in different memory layouts (views of larger arrays, strides, orders, dtypes)."""
+    base = np.arange(H * W, dtype=float).reshape(H, W)
+    if layout == "column_view":
+        big = np.full((H, W + 5), -7.0)
+        big[:, 3:3 + W] = base
+        return big[:, 3:3 + W]
+    if layout == "row_strided":
+        big = np.full((2 * H, W), -7.0)
+        big[::2] = base
+        return big[::2]
+    if layout == "fortran":
+        return np.asfortranarray(base)
+    if layout == "transposed_view":
+        return np.ascontiguousarray(base.T).T
+    if layout == "float32":
+        return base.astype(np.float32)
+    return base
+
+
+def check_array(rec, layout="contiguous"):
     job, tiles = rec["job"], rec["tiles"]
     H, W = job["H"], job["W"]
-    data = np.arange(H * W, dtype=float).reshape(H, W)
+    data = laid_out(H, W, layout)
+    keep = data.copy()
     try:
         got = split_utils.split_array(data, f_sample_num=job["tw"], t_sample_num=job["th"], f_shift=job["sw"], t_shift=job["sh"],
                                       f_trim=job["ftrim"], t_trim=job["ttrim"])
@@ -88,7 +124,9 @@ def check_array(rec):
         want = data[t["y0"]:t["y1"], t["x0"]:t["x1"]]
         g = np.asarray(got[k], dtype=float)
         if g.shape != want.shape or not np.array_equal(g, want):
-            raise Div("tile", {"index": k, "tile": t}, {"shape": list(g.shape)})
+            raise Div("tile", {"index": k, "tile": t, "layout": layout}, {"shape": list(g.shape)})
+    if not np.array_equal(data, keep):
+        raise Div("input_mutated", "input array unchanged", "changed")
     # defaults: shifts default to the tile sizes, tile sizes to the full extent
     if job["sh"] == job["th"] and job["sw"] == job["tw"]:
         try:
